@@ -113,6 +113,15 @@ def nested(pool):
         yield ("switch", c3, [((-1,), [pool[0]]), (None, [st, pool[3]])])
 
 
+def after_construct(pool):
+    """inside one conditional body: a construct, then an assignment to bits the construct may have driven (the later assignment wins)"""
+    for st in constructs(pool[:3], [c2, c3]):
+        if st[0] == "switch" and len(st[2]) > 3:
+            continue
+        for k in range(3):
+            yield ("if", [(c1, [st, pool[k]])], None)
+
+
 def module_terms(tier_quick):
     mods = []
     pool = ASSIGN if not tier_quick else ASSIGN
@@ -128,6 +137,8 @@ def module_terms(tier_quick):
         mods.append([st])
         mods.append([SMALL[4], st])                                            # plain assignment before / after a construct
         mods.append([st, SMALL[5]])
+    for st in after_construct(SMALL):
+        mods.append([st])
     return mods
 
 
